@@ -58,8 +58,9 @@ Case(k, v) == [k |-> k, v |-> v]
 Ctr(arg) == [t |-> "ctr", a |-> arg]
 
 \* ------------------------------------------------------------------ field sets (@key/@requires/@provides)
-FS(n) == [name |-> n, sel |-> <<>>]
-FSN(n, sel) == [name |-> n, sel |-> sel]
+FS(n) == [name |-> n, sel |-> <<>>, args |-> <<>>]
+FSN(n, sel) == [name |-> n, sel |-> sel, args |-> <<>>]
+FSA(n, args) == [name |-> n, sel |-> <<>>, args |-> args]     \* a required leaf field WITH (literal) arguments
 
 \* ------------------------------------------------------------------ definitions
 F(name, type) == [name |-> name, type |-> type, args |-> <<>>, ext |-> FALSE, req |-> <<>>, prov |-> <<>>, inacc |-> FALSE]
@@ -84,9 +85,14 @@ SG(name, types) == [name |-> name, types |-> types]
 
 \* data universe: objs = sequence of [id, type, f |-> [field |-> value]]; the root object has id "Q"
 O(id, type, f) == [id |-> id, type |-> type, f |-> f]
-Uv(name, objs) == [name |-> name,
-                   objs |-> TLCEval([o \in {objs[i].id : i \in DOMAIN objs} |->
-                               LET x == objs[CHOOSE i \in DOMAIN objs : objs[i].id = o] IN [type |-> x.type, f |-> x.f]])]
+\* over: per-subgraph deviations <<[sg, o, f, v]>> (subgraph sg answers v for field f of object o) -- only in the
+\* deliberately INconsistent universes used as negative controls; every catalog universe has over = <<>>
+UvOver(name, objs, over) ==
+  [name |-> name, over |-> over,
+   objs |-> TLCEval([o \in {objs[i].id : i \in DOMAIN objs} |->
+               LET x == objs[CHOOSE i \in DOMAIN objs : objs[i].id = o] IN [type |-> x.type, f |-> x.f]])]
+Uv(name, objs) == UvOver(name, objs, <<>>)
+Dev(sg, o, f, v) == [sg |-> sg, o |-> o, f |-> f, v |-> v]
 
 \* ------------------------------------------------------------------ documents
 Field(name, alias, args, dirs, sel) ==
